@@ -131,8 +131,12 @@ func PointPool(g *groups.Info, seed int64, per int) (*Pool, error) {
 	var srcs []string
 	push := func(b []byte, src string) { cands = append(cands, b); srcs = append(srcs, src) }
 	valid := validPoints(g, seed, per+4)
-	for _, b := range valid {
-		push(b, "library")
+	for i, b := range valid {
+		if i < per+4 {
+			push(b, "library-picked") // Pick / random multiples: classified like any other candidate
+		} else {
+			push(b, "library") // Null and Base: the model must agree on these
+		}
 	}
 	if f != nil {
 		bb, _ := g.Group.Point().Base().MarshalBinary()
@@ -191,12 +195,29 @@ func PointPool(g *groups.Info, seed int64, per int) (*Pool, error) {
 	}
 	classes := make([]Class, len(cands))
 	core.Parallel(len(cands), runtime.NumCPU(), func(i int) { classes[i] = ClassOf(f, size, cands[i]) })
+	capFor := func(c Class) int {
+		if tinyGroup(g) && c.Len == "size" {
+			return 1 << 20 // tiny group: every string of the encoding size is a witness
+		}
+		return per
+	}
+	if tinyGroup(g) { // and every string of lengths 2 and 3 that could be read as a short integer, plus all of length 2
+		for v := 0; v < 1<<16; v++ {
+			push([]byte{byte(v >> 8), byte(v)}, "exhaustive-2")
+			if v%257 == 0 || v < 512 {
+				push([]byte{0, byte(v >> 8), byte(v)}, "exhaustive-3-sample")
+			}
+		}
+		classes = make([]Class, len(cands))
+		core.Parallel(len(cands), runtime.NumCPU(), func(i int) { classes[i] = ClassOf(f, size, cands[i]) })
+	}
 	for i, b := range cands {
-		// the model and the library must agree on what the library itself produces, or nothing can be certified
+		// the model and the library must agree on the identity and the base point, or nothing can be certified
+		// (picked points are not part of this gate: a library whose Pick leaves the group is a defect to report)
 		if c := classes[i]; srcs[i] == "library" && f != nil && !(c.Len == "size" && c.Fmt == "ok" && c.Range == "lt" && c.Flag == "canon" && (c.Mem == "sub" || c.Mem == "id")) {
 			return nil, fmt.Errorf("refmodel does not certify an encoding produced by %s itself (%x classified %s): model and library disagree, no verdict possible", g.Name, b, c)
 		}
-		p.add(b, classes[i], srcs[i], per)
+		p.add(b, classes[i], srcs[i], capFor(classes[i]))
 	}
 	poolMu.Lock()
 	poolCache[key] = p
